@@ -21,6 +21,7 @@ hash_of = z3.Function("hash_of", Val, I)
 COUNT_FAILED = z3.Function("count_failed", SeqE, I)   # number of events whose c field is True (offers that raised)
 PROJ_B = z3.Function("proj_b", SeqE, SeqV)             # the `b` fields of the events, in order
 PROJ_A = z3.Function("proj_a", SeqE, SeqV)             # the `a` fields of the events, in order
+FILTER_OUT = z3.Function("filter_out", SeqV, SetV, SeqV)   # the elements of the sequence that are not in the set, in order
 PARAMS_OF = z3.Function("params_of", Val, SetV)          # parameter names of a callable (inspect.signature / getcallargs)
 ALL_A = z3.Function("all_a", SeqE, Val, B)             # every event's `a` field is the given value
 ALL_B = z3.Function("all_b", SeqE, Val, B)             # every event's `b` field is the given value
@@ -34,7 +35,7 @@ class ModelMixin:
                      "ite", "unit", "is_none", "is_str", "is_int", "is_ref", "last", "ref", "allocated",
                      "held", "is_list_of_pos_int", "cls_id", "is_float", "sval", "ival", "dget", "singleton", "str", "is_bool", "is_dict", "is_list",
                      "setof", "contains", "prefix_of", "is_bytes", "is_cls", "map_int2str", "joinstr", "split", "lookup_global",
-                     "funcval", "seqmap", "extends", "only_changed", "UNSET", "unchanged", "unchanged_old", "cls_module_name", "all_reports", "empty_log", "count_failed", "suffix_of", "proj_a", "all_b", "all_tag", "card", "outside", "mro", "none_in", "is_concat", "none_missing", "is_subset", "union", "params_of", "truthy", "is_prefix", "proj_b", "all_b_not", "all_a", "all_nat", "levelstr", "ascii_ok", "bytes_of", "str_contains", "codec_facts", "is_tuple"}
+                     "funcval", "seqmap", "extends", "only_changed", "UNSET", "unchanged", "unchanged_old", "cls_module_name", "all_reports", "empty_log", "count_failed", "suffix_of", "proj_a", "all_b", "all_tag", "card", "outside", "mro", "none_in", "is_concat", "none_missing", "is_subset", "union", "filter_out", "params_of", "truthy", "is_prefix", "proj_b", "all_b_not", "all_a", "all_nat", "levelstr", "ascii_ok", "bytes_of", "str_contains", "codec_facts", "is_tuple"}
 
     # ------------------------------------------------------------------ spec-mode calls
     def spec_call(self, e, st):
@@ -412,6 +413,9 @@ class ModelMixin:
         if name == "card":
             d1, m1 = self.as_sdict(st, self.spec_builtin(st, "dict_of", [a[0]], e))
             return SV("int", self.set_card(d1))
+        if name == "filter_out":
+            sq = self.spec_builtin(st, "seq", [a[0]], e).t
+            return SV("seq", FILTER_OUT(sq, self.as_sset(st, a[1])))
         if name == "params_of":
             return SV("sset", PARAMS_OF(box(a[0])))
         if name == "truthy":
@@ -532,6 +536,9 @@ class ModelMixin:
                 sq = v.t if v.k == "seq" else self.seq_of(st, v)
                 k = z3.Const("k!set", Val)
                 return [Res(st, SV("sset", z3.Lambda([k], z3.Contains(sq, z3.Unit(k)))))]
+            if v.k == "val":
+                # set(x) of a dynamic value: TypeError unless it is an (iterable) object; the elements are not interpreted
+                return self.may_raise(st, Val.is_RefV(v.t), "TypeError", lambda s: [Res(s, SV("sset", self.fresh("setof", SetV)))])
             raise Unsupported("set() of " + v.k)
         if name == "int":
             v = a[0]
@@ -899,7 +906,9 @@ class ModelMixin:
         if name == "split":
             sep = a[0]
             self.assumptions.add("str.split(sep)/sep.join: axiomatised (join-split inverse when no element contains sep)")
-            return [Res(st, SV("seq", str_split(t, sep.t), h="str"))]
+            res = str_split(t, sep.t)
+            st.assume(z3.Length(res) >= 1)      # str.split(sep) never returns an empty list
+            return [Res(st, SV("seq", res, h="str"))]
         if name == "join":
             src = a[0]
             if src.k == "seq":
@@ -907,7 +916,23 @@ class ModelMixin:
             elif src.k == "list":
                 sq = self.seq_of(st, src)
             elif src.k == "genexp":
-                raise Unsupported("join over generator expression")
+                # sep.join(f(x) for x in xs): f evaluated once on an arbitrary element (whatever it can raise is seen); the text itself
+                # is not interpreted
+                ge = src.t
+                saved = st.fid
+                st.fid = src.x
+                try:
+                    rs = self.ev(ast.ListComp(elt=ge.elt, generators=ge.generators), st)
+                finally:
+                    for r in rs if 'rs' in dir() else []:
+                        r.st.fid = saved
+                out = []
+                for r in rs:
+                    if r.exc is not None:
+                        out.append(r)
+                    else:
+                        out.append(Res(r.st, SV("str", self.fresh("joined", S))))
+                return out
             else:
                 raise Unsupported("join over " + src.k)
             return [Res(st, SV("str", str_join(t, sq)))]
